@@ -58,6 +58,72 @@ def drive(case):
     return rec
 
 
+def placeholders(ml):
+    """the placeholder lists of the real parameters (data, language en)"""
+    from yalafi import tex2txt  # noqa
+    from yalafi import parameters
+    lc = parameters.Parameters('en').lang_context
+    ph = list(lc.math_repl_display) + list(lc.math_repl_display_vowel or []) + list(lc.math_repl_inline) + list(lc.math_repl_inline_vowel or [])
+    if ml:
+        ph += list(lc.lang_change_repl) + list(lc.lang_change_repl_vowel or [])
+    return ph
+
+
+def drive_plain(case):
+    """the option handling of the shell itself (trailing ||, --multi-language): plain input, JSON report"""
+    from harness import shelldrv
+    txt = chars.dec(case['txt'])
+    args = ['--plain-input', '--output', 'json', '--language', 'en-GB', '--single-letters', case['accept']] + (['--multi-language'] if case['ml'] else []) + ['t.tex']
+    r = shelldrv.run_shell({'t.tex': txt}, args, flag='\x01')
+    acc = case['accept']
+    if acc.endswith('||'):
+        acc = acc + '|'.join(placeholders(case['ml']))
+    rec = {'id': case['id'], 'txt': case['txt'], 'accept_raw': case['accept'], 'mode': None, 'ml': case['ml'], 'hasaccept': True, 'hasrepls': False,
+           'accept': chars.enc(acc), 'repls': [], 'equ': [], 'single': [], 'outcome': 'returned', 'shell': True}
+    if r['exit'] != 0 or 'Traceback' in r['stderr']:
+        rec['outcome'] = 'shell-exit-%s' % r['exit']
+        rec['stderr'] = r['stderr'][-300:]
+        return rec
+    try:
+        ms = [m for m in json.loads(r['stdout'])['matches'] if m.get('rule', {}).get('id') == 'PRIVATE::SINGLE_LETTER']
+        rec['single'] = [{'offset': m['offset'], 'length': m['length'], 'ctext': chars.enc(m['context']['text']),
+                          'coffset': m['context']['offset'], 'clength': m['context']['length']} for m in ms]
+    except Exception as ex:  # noqa
+        rec['outcome'] = 'unparsable-report:' + type(ex).__name__
+    return rec
+
+
+def plain_shell_phase(c, tier, texts):
+    q = tier == 'quick'
+    c.rng.shuffle(texts)
+    allph = placeholders(True)
+    special = [chars.enc('x ' + ' '.join(allph) + ' y.\n'), chars.enc(' '.join(p + ' a.' for p in allph) + '\n'), chars.enc('\n'.join(allph) + '\n')]
+    special += [chars.enc('so ' + p + ' b ' + p + '.\n') for p in allph]
+    cases = []
+    for t in special + texts[:60 if q else 1500]:
+        if not ''.join(t).strip():
+            continue
+        for acc in ('A||', 'a.||', 'a'):
+            for ml in (False, True):
+                cases.append(dict(id='ps%d' % len(cases), txt=t, accept=acc, ml=ml))
+    recs = c.drive(cases, drive_plain, chunksize=4)
+    ok = [r for r in recs if r['outcome'] == 'returned']
+    for r in recs:
+        if r['outcome'] != 'returned':
+            c.violation(r, 'shell-plain-input:' + r['outcome'])
+    verdicts = c.validate('ObsChk: single-letter messages of the shell on plain input (trailing ||, multi-language)', 'ObsChk', ok,
+                          project=lambda r: {k: r[k] for k in ('id', 'txt', 'accept', 'repls', 'hasaccept', 'hasrepls', 'single', 'equ')})
+    for r in ok:
+        v = verdicts[r['id']]['c20']
+        if r['single']:
+            c.nontrivial.add(json.dumps([r['txt'], r['accept_raw'], 'shell', r['ml']]))
+        if v.startswith('drift:'):
+            c.drift.append({'text': chars.dec(r['txt']), 'what': v})
+        elif v != 'ok':
+            c.violation(r, 'shell-plain-input:' + v, extra={'text': chars.dec(r['txt']), 'accept': r['accept_raw'], 'multi_language': r['ml']})
+    c.extra['shell_plain_input_cases'] = len(ok)
+
+
 def shell_phase(c, tier):
     """the single-letter check through the shell itself: several text parts (multi-language), all output modes;
     the message has to land on the isolated letter in the LaTeX file (ShellObs.tla with flag = a)"""
@@ -128,6 +194,15 @@ def run(prop, tier, seed, replay=None):
     cases = []
     if replay:
         cs = json.load(open(replay))['case']
+        if cs.get('shell'):      # a case of the plain-input shell phase
+            plain_replay = [dict(id='ps0', txt=cs['txt'], accept=cs['accept_raw'], ml=cs['ml'])]
+            recs = c.drive(plain_replay, drive_plain, chunksize=1)
+            verdicts = c.validate('ObsChk: replay', 'ObsChk', recs, project=lambda r: {k: r[k] for k in ('id', 'txt', 'accept', 'repls', 'hasaccept', 'hasrepls', 'single', 'equ')})
+            for r in recs:
+                if verdicts[r['id']]['c20'] != 'ok':
+                    c.violation(r, 'shell-plain-input:' + verdicts[r['id']]['c20'])
+            c.exhaustive = False
+            return c.finish()
         if 'txt' not in cs:      # a case of the shell phase
             shell_judge(c, [{k: cs[k] for k in ('id', 'doc', 'src', 'mode', 'ml', 'mainlang', 'single', 'ltflag', 'flag')}])
             c.exhaustive = False
@@ -177,6 +252,7 @@ def run(prop, tier, seed, replay=None):
                 c.violation(r, v, extra={'text': chars.dec(r['txt'])})
     if not replay:
         shell_phase(c, tier)
+        plain_shell_phase(c, tier, [r['txt'] for r in ok if r['single']][:4000])
     c.nontrivial = set(hash(x) for x in c.nontrivial if not isinstance(x, int)) | set(x for x in c.nontrivial if isinstance(x, int))
     for r in [x for x in ok if x['single'] or x['equ']][:5]:
         c.sample({'text': chars.dec(r['txt']), 'accept': r['accept_raw'], 'mode': r['mode'],
